@@ -112,7 +112,7 @@ CLAIMS = {
              "CAS at the endpoints); every strategy is non-decreasing in the fraction at fixed neighbours (R27); for every strategy and "
              "element-type family lower <= result <= higher and the result is exactly lower when both neighbours are equal (R26 linear-bound "
              "range analysis) - hence Lower <= {Nearest, Midpoint, Linear} <= Higher, coincidence at integral x, min at q=0 and max at q=1; the "
-             "strategy table and the lookup (R19/R13); the neighbours are order statistics, a function of the lane's multiset only (R25/R22/R4: "
+             "strategy table and the lookup (R19/R13); no memory-order API in the quantile / selection code (R1: result j belongs to request q_j, lane elements are addressed by logical position); the neighbours are order statistics, a function of the lane's multiset only (R25/R22/R4: "
              "bulk selection proved) - hence permutation invariance, and with bracketing and the monotone positions monotonicity in q also "
              "across segments. Relabelling invariance of Lower/Higher/Nearest is witnessed at the type level (thorough tier: they and the "
              "selection compile for an element type offering only Ord + Clone). Overflow of intermediates breaks the bracketing for signed and "
@@ -249,7 +249,7 @@ CLAIMS = {
              "index_axis_move(axis,0); 1-D wrappers = axis forms at Axis(0); per-axis weighted sum/mean/var/std map operation-identical "
              "kernels with the caller's arguments; central_moment and central_moments share canonical shifted moments, correction term, "
              "prefix ..=k and kernels; the unchecked bulk selection always receives a sorted+deduped vector; j-th output ↔ j-th q with "
-             "matching push/lookup predicates. Does not decide that a bulk selection returns for each index what a single selection would."
+             "matching push/lookup predicates (polarity and coverage of the neighbour positions). The entry for index i of bulk selection equals single selection of i because both are proved to be the element of rank i (R25 bulk proof, R24 single proof, also through a private recursive helper)."
              " Result integrity (R30): what each routine hands back is the value its verified core computed – on every success path, with nothing applied afterwards, and reached for every argument in the property's range (guard direction R31, termination of the cursor loops R32 where applicable); see DESIGN §7.x for the mutation sweeps that motivated these clauses.",
         design_ref="DESIGN.md §4 C18",
         note=NOTE_BASE,
